@@ -111,8 +111,18 @@ class ShapeEvaluateH(_Shape):
         t = truth(st["top"], st["env"])
         ev, evp = res["ev"], res["evp"]
         top = evp["T"]
-        return [("shape.evaluate", band(ev.lower == t, ev.upper == t)),
-                ("shape.evaluate_propositions.top", band(top.lower == t, top.upper == t))]
+        out = [("shape.evaluate", band(ev.lower == t, ev.upper == t)),
+               ("shape.evaluate_propositions.top", band(top.lower == t, top.upper == t))]
+        # every node of the model has an entry, and it is the node's own truth value (leaves: the assigned value)
+        every = True
+        for k, o in st["objs"].items():
+            if k not in evp:
+                every = False
+                break
+            tk = truth(o, st["env"])
+            every = band(every, evp[k].lower == tk, evp[k].upper == tk)
+        out.append(("shape.evaluate_propositions.every-node", every))
+        return out
 
     def replay(self, w):
         top, tree = self.native(w)
@@ -127,6 +137,12 @@ class ShapeEvaluateH(_Shape):
                 violated.append("shape.evaluate"); detail["interpretation"] = env; detail["evaluate"] = [int(x) for x in ev.as_tuple()]
             if tuple(evp.as_tuple()) != (t, t) and "shape.evaluate_propositions.top" not in violated:
                 violated.append("shape.evaluate_propositions.top"); detail["interpretation"] = env
+            m3, _ = self.native(w)
+            allp = m3.evaluate_propositions(dict(env))
+            for k in list(tree) + list(env):
+                tk = self.tv(w, tree, k, env)
+                if (k not in allp or tuple(allp[k].as_tuple()) != (tk, tk)) and "shape.evaluate_propositions.every-node" not in violated:
+                    violated.append("shape.evaluate_propositions.every-node"); detail["interpretation"] = env; detail["node"] = k
         return {"violated": violated, "detail": detail}
 
 
